@@ -173,7 +173,8 @@ func c27DoSeal(rq c27Request, lay c27Layout) (api string, text []byte, err error
 		c27TokenMu.Lock()
 		defer c27TokenMu.Unlock()
 		os.Setenv("EGO_SERVER_TOKEN_KEY", rq.Pass)
-		s, e := tokens.New(name, data, "1h", c27UUID, 0)
+		// long-lived: expiry is not C27's business, and a run on a heavily loaded machine can last hours
+		s, e := tokens.New(name, data, "720h", c27UUID, 0)
 		return "token", []byte(s), e
 	}
 	return "", nil, fmt.Errorf("unknown format %q", rq.Fmt)
